@@ -17,6 +17,13 @@
 // explicit-instantiation loophole (an explicit template instantiation may name a private member), no layout
 // assumption, no change to /repo.
 //
+// Extra forms.  `lockw` = Lock() whose critical section waits (suspended on a harness gate, not on the mutex) until
+// every other coroutine has pushed itself onto the mutex or finished: with k = 4 and FIFO this makes ONE GetHead take
+// over three waiters, whatever the schedule (the FIFO monitor needs >= 3 waiters in one batch to tell a reversal from a
+// rotation).  `dtry` = guard built with std::defer_lock + guard.TryLock(); `pguard`/`rtry` = a guard that lives across
+// rounds, unlocked with UnlockHere and re-locked with guard.TryLock(); monitor: TryLock() == OwnsLock().
+// (StickyGuard re-locked through the inherited Guard::TryLock keeps a stale `_executor`; that form is not generated.)
+//
 // Attribution.  Trace lines are labelled with the *coroutine* that executes them, not with the fiber: the coroutine
 // body renames the running fiber after every resumption (`cN`).  When a coroutine submits itself (UnlockOn re-submits
 // the unlocking coroutine before it releases the mutex; batched Unlock re-submits it before transferring to the next
@@ -31,6 +38,7 @@
 
 #include <deque>
 #include <map>
+#include <set>
 #include <sstream>
 
 namespace {
@@ -70,6 +78,7 @@ struct Scenario {
   bool batching, fifo;
   std::string exec;  // inline | pool1 | pool2
   std::vector<std::vector<Round>> prog;
+  std::uint64_t cap = 0;  // bound on the executions of this scenario (0 = the command line's)
   std::string Header() const {
     std::string p;
     for (std::size_t i = 0; i < prog.size(); ++i) {
@@ -87,6 +96,11 @@ struct Scenario {
 struct Shared {
   std::map<const yaclib::Job*, std::string> job_name;
   std::map<std::string, bool> started;
+  std::map<unsigned long long, std::string> core_name;  // word stored in _sender -> coroutine
+  // gate of the `lockw` form
+  int gate_need = 0;
+  std::set<std::string> gate_arrived;
+  yaclib::Job* gate_waiting = nullptr;
   int inside = 0;          // coroutines inside the critical section
   int plain = 0;           // protected, non-atomic
   int sections = 0;        // critical sections completed
@@ -125,11 +139,14 @@ struct Exec final : yaclib::IExecutor {
       job.Call();
       ctx.NameSelf(saved);
     } else {
-      q.push_back(&job);
-      if (active < workers) {
-        ++active;
-        threads.emplace_back("w" + std::to_string(spawned++), [this] { Drain(); });
-      }
+      Enqueue(job);
+    }
+  }
+  void Enqueue(yaclib::Job& job) {
+    q.push_back(&job);
+    if (active < workers) {
+      ++active;
+      threads.emplace_back("w" + std::to_string(spawned++), [this] { Drain(); });
     }
   }
   void Drain() {
@@ -158,6 +175,38 @@ struct SelfAwaiter {
 
 #define ME() vx::gCtx->NameSelf(me)
 
+Exec* gExec = nullptr;
+const void* gSenderObj = nullptr;
+
+void GateArrive(const std::string& who) {
+  if (gS->gate_need == 0) return;
+  gS->gate_arrived.insert(who);
+  if (static_cast<int>(gS->gate_arrived.size()) >= gS->gate_need && gS->gate_waiting != nullptr) {
+    auto* j = gS->gate_waiting;
+    gS->gate_waiting = nullptr;
+    gExec->Enqueue(*j);  // not a mutex operation: no event
+  }
+}
+
+struct GateAwaiter {
+  bool await_ready() const noexcept { return static_cast<int>(gS->gate_arrived.size()) >= gS->gate_need; }
+  template <typename P>
+  void await_suspend(yaclib_std::coroutine_handle<P> h) noexcept {
+    gS->gate_waiting = static_cast<yaclib::Job*>(&static_cast<yaclib::detail::BaseCore&>(h.promise()));
+  }
+  void await_resume() const noexcept {}
+};
+
+// trace hook wrapper: a successful push CAS on `_sender` is an arrival at the gate
+void OnAtomicHook(void* c, const void* obj, int op, int so, int fo, unsigned long long a, unsigned long long e,
+                  unsigned long long r, int ok) {
+  static_cast<vx::Ctx*>(c)->OnAtomic(obj, op, so, fo, a, e, r, ok);
+  if (obj == gSenderObj && op == yaclib::verif::kCasWeak && ok && a != 0) {
+    auto it = gS->core_name.find(a);
+    if (it != gS->core_name.end()) GateArrive(it->second);
+  }
+}
+
 void Enter(const std::string& /*me*/) {
   vx::Ev("cs_enter");
   if (++gS->inside != 1) gS->Bad("two coroutines inside the critical section");
@@ -180,11 +229,51 @@ yaclib::Future<> Coro(const Scenario& sc, int id, yaclib::Mutex<Batching, FIFO>&
   auto* core = co_await SelfAwaiter{};
   vx::gCtx->NameVal(core, me);
   gS->job_name[static_cast<yaclib::Job*>(core)] = me;
+  gS->core_name[reinterpret_cast<std::uintptr_t>(core)] = me;
   co_await yaclib::On(ex);
   ME();
+  yaclib::UniqueGuard<yaclib::Mutex<Batching, FIFO>> pg;  // the guard of the `pguard` / `rtry` forms lives across rounds
   for (const Round& r : sc.prog[id]) {
-    if (r.acq == "lock" || r.acq == "trylock") {
-      if (r.acq == "lock") {
+    if (r.acq == "dtry" || r.acq == "rtry" || r.acq == "pguard") {
+      using G = yaclib::UniqueGuard<yaclib::Mutex<Batching, FIFO>>;
+      if (r.acq == "dtry" || pg.Mutex() == nullptr) {
+        if (r.acq == "pguard") {
+          pg = co_await m.Guard();
+          ME();
+        } else {
+          pg = G{m, std::defer_lock};
+        }
+      } else if (r.acq == "pguard") {
+        co_await pg.Lock();
+        ME();
+      }
+      if (r.acq != "pguard") {
+        const bool ok = pg.TryLock();
+        if (ok != pg.OwnsLock()) {
+          gS->Bad(std::string("guard.TryLock() returned ") + (ok ? "true" : "false") + " but OwnsLock() is " +
+                  (pg.OwnsLock() ? "true" : "false"));
+          if (!ok) std::ignore = pg.Release();  // keep the run sane: do not release somebody else's lock as well
+        }
+        if (!ok) {
+          vx::Ev("try_fail");
+          continue;
+        }
+        if (gS->inside != 0) gS->Bad("guard.TryLock() succeeded while another coroutine is inside the critical section");
+      }
+      Enter(me);
+      Exit(r.rel);
+      if (r.rel == "gunlock") {
+        co_await pg.Unlock();
+      } else if (r.rel == "gunlockon") {
+        co_await pg.UnlockOn(ex);
+      } else if (r.rel == "ghere") {
+        pg.UnlockHere();
+      } else {  // dtor
+        G dying = std::move(pg);
+      }
+      ME();
+    } else if (r.acq == "lock" || r.acq == "lockw" || r.acq == "trylock") {
+      if (r.acq != "trylock") {
         co_await m.Lock();
         ME();
       } else if (!m.TryLock()) {
@@ -194,6 +283,10 @@ yaclib::Future<> Coro(const Scenario& sc, int id, yaclib::Mutex<Batching, FIFO>&
         gS->Bad("TryLock succeeded while another coroutine is inside the critical section");
       }
       Enter(me);
+      if (r.acq == "lockw") {
+        co_await GateAwaiter{};  // still inside the critical section
+        ME();
+      }
       Exit(r.rel);
       if (r.rel == "unlock") {
         co_await m.Unlock();
@@ -247,6 +340,7 @@ yaclib::Future<> Coro(const Scenario& sc, int id, yaclib::Mutex<Batching, FIFO>&
   ME();
   vx::Ev("done");
   ++gS->finished;
+  GateArrive(me);
   co_return{};
 }
 
@@ -256,9 +350,15 @@ void RunScenarioT(const Scenario& sc) {
   auto& ctx = *vx::gCtx;
   yaclib::Mutex<Batching, FIFO> m;
   ctx.NameObj(&Sender(m), "s");
+  gSenderObj = &Sender(m);
+  yaclib::verif::gHooks.on_atomic = &OnAtomicHook;
+  for (auto& p : sc.prog)
+    for (auto& r : p)
+      if (r.acq == "lockw") gShared.gate_need = static_cast<int>(sc.prog.size()) - 1;
   ctx.NameValWord(0, "locked");
   ctx.NameValWord(~0ULL, "free");
   Exec ex;
+  gExec = &ex;
   ex.workers = sc.exec == "inline" ? 0 : sc.exec == "pool1" ? 1 : 2;
   const int k = static_cast<int>(sc.prog.size());
   std::vector<yaclib::Future<>> futs(k);
@@ -276,6 +376,8 @@ void RunScenarioT(const Scenario& sc) {
     ex.JoinAll();
   }
   ctx.NameSelf("r");
+  gExec = nullptr;
+  gSenderObj = nullptr;
 }
 
 void RunScenario(const Scenario& sc) {
@@ -311,7 +413,7 @@ std::string Monitor(const Scenario& sc, bool done) {
   for (auto& p : sc.prog) {
     for (auto& r : p) {
       ++expected_rounds;
-      if (r.acq == "trylock" || r.acq == "tryguard") ++try_rounds;
+      if (r.acq == "trylock" || r.acq == "tryguard" || r.acq == "dtry" || r.acq == "rtry") ++try_rounds;
     }
   }
   std::string holder;  // coroutine between cs_enter and cs_exit according to the trace
@@ -372,11 +474,27 @@ std::vector<Scenario> AllScenarios() {
     {P({"lock:unlock"}), P({"lock:unlockon"}), P({"guard:gunlockon"})},
     {P({"guard:dtor", "lock:unlock"}), P({"lock:unlockon"}), P({"sticky:ghere"})},
   };
+  // guard-level TryLock on a deferred / unlocked guard (Guard::TryLock, not Mutex::TryLock)
+  std::vector<std::vector<std::vector<Round>>> guard_progs = {
+    {P({"lock:unlock"}), P({"dtry:dtor"})},
+    {P({"guard:gunlock"}), P({"pguard:ghere", "rtry:gunlock"})},
+    {P({"lock:here"}), P({"dtry:ghere"}), P({"lock:unlock"})},
+  };
+  // one GetHead takes over three waiters (k = 4, the holder waits inside its critical section until all have pushed)
+  std::vector<std::vector<std::vector<Round>>> batch_progs = {
+    {P({"lockw:unlock"}), P({"lock:unlock"}), P({"lock:unlock"}), P({"lock:unlock"})},
+    {P({"lockw:here"}), P({"guard:dtor"}), P({"lock:unlockon"}), P({"sticky:sunlock"})},
+  };
   std::vector<Scenario> out;
   for (int b = 0; b < 2; ++b)
     for (int f = 0; f < 2; ++f)
-      for (const char* e : {"pool1", "pool2", "inline"})
+      for (const char* e : {"pool1", "pool2", "inline"}) {
         for (auto& p : progs) out.push_back(Scenario{b != 0, f != 0, e, p});
+        for (auto& p : guard_progs) out.push_back(Scenario{b != 0, f != 0, e, p});
+        if (std::string(e) != "inline") {
+          for (auto& p : batch_progs) out.push_back(Scenario{b != 0, f != 0, e, p, 1500});
+        }
+      }
   return out;
 }
 
@@ -385,7 +503,9 @@ std::vector<Scenario> AllScenarios() {
 int main(int argc, char** argv) {
   auto opt = vx::ParseOptions(argc, argv);
   vx::Explorer ex(opt);
+  const auto user_max = ex.opt.max_exec;
   for (auto& sc : AllScenarios()) {
+    ex.opt.max_exec = sc.cap != 0 && sc.cap < user_max ? sc.cap : user_max;
     ex.Run(sc.Header(), [&] { RunScenario(sc); }, [&](bool done) { return Monitor(sc, done); });
   }
   ex.Report();
